@@ -1,5 +1,5 @@
 """C03 lexical names: S1 scope per sub-expression context, S2 readers clone, S3 rebind/unbound throw, Q1(iii)."""
-import r_scope, r_pure
+import r_scope, r_pure, r_build
 from common import apply, maybe_mutants
 
 
@@ -10,7 +10,8 @@ def run(prog, rep, tier):
                   "inserting a duplicate and the READ case of build_exec cannot complete without a lookup hit or a throw; Q1(iii): no function-local "
                   "static initialised from a parameter (same text compiled twice); S4: bindings::find consults the enclosing scope only when the "
                   "own scope misses, and a block's up-reference table enters the names of the enclosing scope before inherited up-references "
-                  "under keep-first insertion (inner binders shadow outer/builtin names for nested blocks).")
+                  "under keep-first insertion (inner binders shadow outer/builtin names for nested blocks); S6: build_exec interpreted on a READ node "
+                  "and on a BLOCK node with one free name, under every combination of scope-chain hit / up-reference hit: the scope chain wins.")
     rep.not_decided = ("agreement between up-value id allocation order and the pop order in op_lex_closure for all nesting shapes; that each read "
                        "yields the value bound for the very input (run-time relation).")
     r = r_scope.s1(prog)
@@ -23,6 +24,7 @@ def run(prog, rep, tier):
     apply(rep, "S3", "rebind / unbound name are compile-time throws", r_scope.s3(prog), 2)
     apply(rep, "S5", "inherited up-references start unused in the nested block", r_scope.s5(prog), 1)
     apply(rep, "S4", "inner binders shadow outer ones (lookup and up-reference table order)", r_scope.s4(prog), 2)
+    apply(rep, "S6", "a scope-chain binding wins over an up-reference of the enclosing block", r_build.s6(prog), 2)
     q = r_pure.q1(prog)
     apply(rep, "Q1", "no parameter-dependent function-local static", ([i for i in q[0] if i[0].startswith("Q1iii")],
                                                                     [f for f in q[1] if f["key"].startswith("Q1iii")]), 1)
